@@ -156,3 +156,100 @@ CONTROLS2 = [DOTTED_NAMES, DOTTED_NAMES_THREADS, ATTACH_BLOCKS, ATTACH_BLOCK_RAI
              SUBCLASS_ABORT_ALL, SUBCLASS_ABORT_SUITE]
 
 CONTROLS = [SAME_NAMED_THREADS, SAME_NAMED_THREADS_BOTH_FAIL, SAME_NAMED_THREADS_QUIET, SAME_NAMED_THREADS_QUIET2, SAME_NAMED_THREADS_QUIET, SAME_NAMED_THREADS_QUIET2, SAME_NAMED_THREADS_STEPS, SAME_NAMED_SUBSUITES]
+
+
+# ---- round 3 -------------------------------------------------------------------------------------------------------
+_SYS_EXIT = {"a": "raise", "kind": "exc", "base": "SystemExit"}
+_PANIC = {"a": "raise", "kind": "exc", "base": "CustomBase"}
+
+# an lcc.Thread whose target has logged and then does not return — sys.exit(), the regular way of ending a thread from
+# the inside — in a test body, in a setup_suite hook and in a fixture teardown: `Thread.run` ends the thread's step in
+# its `finally`, nothing is logged, the test goes on, logs and ends
+THREAD_ENDS_WITH_SYSTEM_EXIT = _case(
+    _p([_s("s0", [_t("t0", ["fx"], [_LOG, {"a": "thread", "script": [_LOG, {"a": "step", "d": "second"}, _LOG, _SYS_EXIT]}, _LOG]),
+                  _t("t1", [], [_LOG], rank=2)],
+           setup_suite={"params": [], "script": [{"a": "thread", "script": [_LOG, _SYS_EXIT]}, _LOG]})],
+       fixtures=[_f("fx", "test", [_LOG], teardown=[{"a": "thread", "script": [_LOG, _SYS_EXIT]}])]),
+    _cfg(1))
+# ... and with two tests doing so at the same time (named threads, held between their log and their exit)
+THREADS_END_WITH_SYSTEM_EXIT_PARALLEL = _case(
+    _p([_s("s0", [_t("t0", [], [_named_thread([_LOG, _GATE, _SYS_EXIT]), _LOG]),
+                  _t("t1", [], [_named_thread([_LOG, _GATE, _SYS_EXIT]), _LOG], rank=2)])]),
+    _cfg(2, "fifo"))
+
+# Abort* constructed with something else than one message string: the exception that was caught, a number, no argument,
+# a message and a code — from a body, a setup_test hook, a test fixture and a suite fixture; the reason only shapes a text
+def _abort(kind, args, **kw):
+    return dict({"a": "raise", "kind": kind, "args": args}, **kw)
+
+
+ABORT_ARGUMENTS = _case(
+    _p([_s("s0", [_t("t0", [], [_LOG, _abort("AbortTest", "exc")]),
+                  _t("t1", ["fx"], [_LOG], rank=2),
+                  _t("t2", [], [_LOG, _abort("AbortTest", "two")], rank=3),
+                  _t("t3", [], [_LOG, _abort("AbortTest", "none", sub=True)], rank=4)],
+           teardown_test=[_LOG]),
+        _s("s1", [_t("t0", [], [_LOG, _abort("AbortSuite", "int")]), _t("t1", [], [_LOG], rank=2)], rank=2),
+        _s("s2", [_t("t0", [], [_LOG]), _t("t1", [], [_LOG], rank=2)], rank=3, setup_test=[_abort("AbortSuite", "exc")]),
+        _s("s3", [_t("t0", [], [_LOG, _abort("AbortAllTests", "exc")]), _t("t1", [], [_LOG], rank=2)], rank=4)],
+       fixtures=[_f("fx", "test", [_LOG, _abort("AbortTest", "int")], teardown=[])]),
+    _cfg(1))
+
+# Abort* raised by the setup of a PER-THREAD fixture: evaluated at its first use by a worker, inside the test task
+# (`_prepare_test_args`), while tests that do not use the fixture are still to start
+PERTHREAD_FIXTURE_ABORTS_SUITE = _case(
+    _p([_s("s0", [_t("t0", ["pt"], [_LOG]), _t("t1", [], [_LOG], rank=2), _t("t2", [], [_LOG], rank=3)],
+           suites=[_s("sub", [_t("t3", [], [_LOG])])]),
+        _s("s1", [_t("t4", [], [_LOG])], rank=2)],
+       fixtures=[_f("pt", "session", [_LOG, {"a": "raise", "kind": "AbortSuite"}], teardown=[], per_thread=True)]),
+    _cfg(1))
+PERTHREAD_FIXTURE_ABORTS_ALL = _case(
+    _p([_s("s0", [_t("t0", ["pt"], [_LOG]), _t("t1", [], [_LOG], rank=2)],
+           suites=[_s("sub", [_t("t3", [], [_LOG])])]),
+        _s("s1", [_t("t4", [], [_LOG])], rank=2)],
+       fixtures=[_f("pt", "suite", [{"a": "raise", "kind": "AbortAllTests", "sub": True}], per_thread=True)]),
+    _cfg(1))
+
+# a reporting backend raises AND the run is interrupted: the failure first, then Ctrl-C — and the other way round
+_THREE = _p([_s("s0", [_t("t0", [], [_LOG]), _t("t1", [], [_LOG], rank=2), _t("t2", [], [_LOG], rank=3)],
+                teardown_suite=[_LOG])])
+FAULT_THEN_INTERRUPT = _case(_THREE, _cfg(1, interrupt=["get", 3], fault={"k": 1, "cls": "OSError", "text": "backend boom \u00e9 #42"}))
+INTERRUPT_THEN_FAULT = _case(_THREE, _cfg(1, interrupt=["get", 1], fault={"k": 9, "cls": "Custom", "text": "backend boom \u00e9 #42"}))
+
+# a top-level suite named like a sub-suite of an earlier top-level suite, same-named tests in the same-named suites,
+# running at the same time (alpha, alpha.beta, beta, beta.alpha)
+NAMES_ACROSS_LEVELS = _case(
+    _p([_s("alpha", [_t("exchange", [], [_GATE, _LOG, _ERR])],
+           suites=[_s("beta", [_t("exchange", [], [_GATE, _LOG, {"a": "step", "d": "inner"}, _LOG])])]),
+        _s("beta", [_t("exchange", [], [_GATE, _LOG, _LOG])],
+           suites=[_s("alpha", [_t("exchange", [], [_GATE, _ERR])])], rank=2)]),
+    _cfg(4, "lifo"))
+
+# step descriptions the API accepts like any other: blank, with line breaks, long — in a test thread and an lcc.Thread
+ODD_STEP_DESCRIPTIONS = _case(
+    _p([_s("s0", [_t("t0", [], [{"a": "step", "d": " "}, _LOG, {"a": "step", "d": "two\nlines"}, _LOG,
+                               {"a": "thread", "script": [{"a": "step", "d": "\t"}, _LOG, {"a": "step", "d": "x" * 300}, _LOG]},
+                               {"a": "step", "d": "trailing\n"}, _LOG]),
+                  _t("t1", [], [_LOG], rank=2)])]),
+    _cfg(1))
+
+CONTROLS3 = [THREAD_ENDS_WITH_SYSTEM_EXIT, THREADS_END_WITH_SYSTEM_EXIT_PARALLEL, ABORT_ARGUMENTS, NAMES_ACROSS_LEVELS,
+             ODD_STEP_DESCRIPTIONS]
+
+# the untitled step: `lcc.set_step("")` followed by records, then another step; in an lcc.Thread too.  Finding D39 (C07): the
+# unchanged session.py never ends that step.  The model is the repaired behaviour; while `gen.empty_step_ok()` is False the
+# comparison with the model is skipped for cases carrying "model": false (the oracles judge them).
+EMPTY_STEP_DESCRIPTION = dict(_case(
+    _p([_s("s0", [_t("t0", [], [{"a": "step", "d": ""}, _LOG, {"a": "step", "d": "next"}, _LOG]),
+                  _t("t1", [], [_LOG], rank=2)])]),
+    _cfg(1)), model_if="empty-step")
+EMPTY_STEP_IN_THREAD = dict(_case(
+    _p([_s("s0", [_t("t0", [], [_LOG, {"a": "thread", "script": [{"a": "step", "d": ""}, _LOG]}, _LOG]),
+                  _t("t1", [], [_LOG], rank=2)])]),
+    _cfg(1)), model_if="empty-step")
+
+# an lcc.Thread ended by a project's own BaseException (not SystemExit): an uncaught exception of user code that
+# `Thread.run` (`except Exception`) does not record — the test is reported passed (finding D40, C02)
+THREAD_ENDS_WITH_PANIC = _case(
+    _p([_s("s0", [_t("t0", [], [_LOG, {"a": "thread", "script": [_LOG, _PANIC]}, _LOG]), _t("t1", [], [_LOG], rank=2)])]),
+    _cfg(1))
